@@ -3,4 +3,4 @@ From Coq Require Import ZArith List String.
 From Coq Require Extraction ExtrOcamlBasic ExtrOcamlString.
 From NV Require Import Base.PyVal Extract.Commands.
 Extraction Language OCaml.
-Extraction "model.ml" run pyval_eqb.
+Extraction "model.ml" nv_run pyval_eqb.
